@@ -95,3 +95,18 @@ Definition all_case (prog : list ctree) (d : defaults) (steps : list stim) :=
 
 Definition all_case4 (prog : list ctree) (d : defaults) (steps : list stim) :=
   (cond_case prog d steps, spec_case prog d steps, struct_case prog d, lits_case prog).
+
+(* with predicate bitwidths (pws: width of predicate wire p at index p, default 1) *)
+Definition pw_of (pws : list Z) : pid -> Z := fun p => nth (Z.to_nat p) pws 1.
+
+Definition all_case5 (pws : list Z) (prog : list ctree) (d : defaults) (steps : list stim) :=
+  (match elab_w (pw_of pws) prog d with
+   | None => None
+   | Some res => Some (map (model_row res) steps)
+   end,
+   (spec_accepts_w (pw_of pws) prog, map (spec_row prog d) steps),
+   match elab_w (pw_of pws) prog d with
+   | None => None
+   | Some res => Some (map (fun kv => lhs_code (fst kv) :: ser_f (snd kv)) res)
+   end,
+   lits_case prog).
